@@ -40,7 +40,9 @@ T = {
  "C13": ("Proof that for every capacity and history no array access of the model is out of bounds and no NULL / wrongly typed slot is dereferenced, that the "
          "ghost reference count of every object equals the number of slots holding it plus the references handed to the caller after every call, that "
          "deallocation from any reachable state releases everything (all counts 0), and that capacities outside 4..65535 are rejected (Props/C13.v; the "
-         "pre-repair truncation and leaks are refuted in C/Legacy.v). PARTIAL, labelled: use-after-free of node memory and the subclass allocation protocol "
+         "pre-repair truncation and leaks are refuted in C/Legacy.v). Node blocks: node_destroy instrumented with the log of freed addresses frees every "
+         "node of the tree exactly once, children before parents, and the node addresses of every reachable state are exactly the blocks handed out "
+         "(C/NodeMem.v; tied to the code by allocation counters behind the verification guard, /repo 5ca51f7). PARTIAL, labelled: use-after-free of node memory and the subclass allocation protocol "
          "live in CPython's allocator, which the Gallina model cannot exhibit; they are covered by the correspondence runs only (per-history subprocesses "
          "whose crash is a violation, refcount / weakref audit of every tracked object against the model's counts after every call and after del + gc, ASan "
          "in the thorough tier, subclass and wrapper embeddings).", C_NOTE),
